@@ -36,10 +36,18 @@ def _fail_after_arg(w) -> str:
     return ""
 
 
+def _poll_bound_arg(w) -> str:
+    """The poll interval may end by raising (fail_after) or by quietly leaving the block (move_on_after): either bounds the receive."""
+    for it in w.items:
+        if isinstance(it.context_expr, ast.Call) and call_name(it.context_expr) in ("anyio.fail_after", "fail_after", "anyio.move_on_after", "move_on_after"):
+            return ast.unparse(it.context_expr.args[0]) if it.context_expr.args else "<none>"
+    return ""
+
+
 def check(P: Project, R: Report) -> None:
     R.rule("R1", "the wait runs inside `with anyio.fail_after(<timeout parameter>)` and the parameter is never reassigned (necessary condition for the deadline)")
     R.rule("R2", "nothing in the wait's call tree swallows the deadline: no handler covering BaseException/CancelledError without re-raising; the TimeoutError handler encloses only the inner fail_after(sub_timeout) block")
-    R.rule("R3", "in every iteration the cancellation check precedes the blocking receive, and the receive is bounded by fail_after(<positive constant not overridden by the caller>)")
+    R.rule("R3", "in every iteration the cancellation check precedes the blocking receive, and the receive is bounded by fail_after/move_on_after(<positive constant not overridden by the caller>)")
     R.rule("R4", "the pre-send check precedes the request write; on the cancelled path exactly one cancelled notification naming the request id is sent on the write stream, then CancelledError is raised; otherwise the check has no effect")
     R.rule("R5", "the progress callback is called only under method == notifications/progress ∧ token == the token generated for this request, with the notified values, outside inner loops, inside a handler for Exception that does not raise, and the iteration then continues")
     W = _sendmsg.analyse(P)
@@ -88,10 +96,10 @@ def check(P: Project, R: Report) -> None:
     # ------------------------------------------------------------------ R3
     recv = W.recv_assign
     rwiths = _enclosing_withs(wait.node, recv)
-    rargs = [a for a in (_fail_after_arg(w) for w in rwiths) if a]
+    rargs = [a for a in (_poll_bound_arg(w) for w in rwiths) if a]
     R.need(True, "")
     bounded = False
-    detail = f"enclosing fail_after arguments: {rargs}"
+    detail = f"enclosing fail_after/move_on_after arguments: {rargs}"
     for a in rargs:
         d = wait.param_default(a) if a in wait.params() else None
         v = try_fold(P, wait.module, d) if d is not None else try_fold(P, wait.module, ast.parse(a, mode="eval").body)
